@@ -3,9 +3,9 @@
    run; the engine (Model.Standardize) is hand-modelled and tied by correspondence (harness/checks/C14.py).
    NOT theorems (search only): idempotence, numbering independence, tautomer enumeration, neutralisation. *)
 From Coq Require Import ZArith List String Bool.
-From Model Require Import PyBase Graph PeriodicTable Standardize StandardizeMatch StandardizeHyd StandardizeNeutral.
-From Gen Require Import Elements StdRules C14Consts.
-From Proofs Require Import StandardizeProofs StandardizeExt StandardizeTables StandardizeHydProofs StandardizeHydGen StandardizeNeutralProofs StandardizeMatchProofs C14ConstsProofs StandardizeImplicify StandardizeImplicifyEx StandardizeInverse.
+From Model Require Import PyBase Graph PeriodicTable Standardize StandardizeMatch StandardizeHyd StandardizeNeutral StandardizeChargesBase StandardizeCharges StandardizeChargesPre StandardizeFerrocene.
+From Gen Require Import Elements StdRules C14Consts C14Charges.
+From Proofs Require Import StandardizeProofs StandardizeExt StandardizeTables StandardizeHydProofs StandardizeHydGen StandardizeNeutralProofs StandardizeMatchProofs C14ConstsProofs StandardizeImplicify StandardizeImplicifyEx StandardizeInverse StandardizeChargesProofs StandardizeChargesNet StandardizeFerroceneProofs.
 Import ListNotations.
 Open Scope Z_scope.
 
@@ -377,3 +377,134 @@ Theorem C14_inverse_example :
   exists g', explicify ethanol = Ok g' /\ List.length (m_atoms g') = 9%nat /\ implicify real_vlookup g' = Ok ethanol.
 Proof. exact inverse_example. Qed.
 Print Assumptions C14_inverse_example.
+
+(* ================= round 4: standardize_charges, loop bodies TRANSLATED from the source ================= *)
+(* tools/gen_c14charges.py translates the bodies of the three loops of Standardize.standardize_charges statement by statement on every
+   run (Gen.C14Charges: the loop over fixed_rules, the loop over morgan_rules, the assignment of the recorded pairs by canonical order).
+   The translated bodies ARE the hand-written model, and the whole heterocycle part run with them is the model the theorems below are
+   about: a behaviour-changing edit of these source lines breaks this theorem *)
+Theorem C14_charges_translated :
+  (forall fx mp st, g_fixed_step fx mp st = fixed_step fx mp st) /\
+  (forall fx mp st, g_morgan_step fx mp st = morgan_step fx mp st) /\
+  (forall order p st, g_morgan_assign order p st = morgan_assign order p st) /\
+  (forall yf ym order g, charges_with g_fixed_step g_morgan_step g_morgan_assign fixed_rules morgan_rules yf ym order g
+                         = standardize_charges_model yf ym order g).
+Proof. exact (conj gen_fixed_step_eq (conj gen_morgan_step_eq (conj gen_morgan_assign_eq gen_charges_eq))). Qed.
+Print Assumptions C14_charges_translated.
+
+(* for EVERY molecule, EVERY matcher output (any lists of mappings), EVERY canonical order and EVERY pair of rule tables: when the
+   heterocycle part of standardize_charges returns, the atoms are the same in the same order, each keeps element / isotope / radical
+   state / hydrogen count / stereo label, the bonds are untouched, and an atom outside `touched` keeps its charge too *)
+Theorem C14_charges_frame : forall ftable mtable yf ym order g st,
+  charges_with fixed_step morgan_step morgan_assign ftable mtable yf ym order g = Ok st ->
+  exists touched, frame g (cs_mol st) touched.
+Proof. exact charges_frame. Qed.
+Print Assumptions C14_charges_frame.
+
+Theorem C14_charges_conserve_atoms_and_bonds : forall yf ym order g st,
+  standardize_charges_model yf ym order g = Ok st ->
+  skeleton (cs_mol st) = skeleton g /\ graph_of (cs_mol st) = graph_of g /\ m_adj (cs_mol st) = m_adj g.
+Proof. exact charges_conserve_atoms_and_bonds. Qed.
+Print Assumptions C14_charges_conserve_atoms_and_bonds.
+
+(* the regenerated charge tables name the pattern atoms the loop bodies read (1, 2, and 3 when fix) ... *)
+Theorem C14_table_charged_keys : forallb crule_keys_ok fixed_rules = true /\ forallb crule_keys_ok morgan_rules = true.
+Proof. exact table_crule_keys_b. Qed.
+Print Assumptions C14_table_charged_keys.
+
+(* ... so for EVERY molecule, canonical order and matcher whose mappings are total on the pattern atoms, the heterocycle part of
+   standardize_charges over the regenerated tables never fails *)
+Theorem C14_charges_never_fail : forall yf ym order g,
+  yielded_ok fixed_rules yf -> yielded_ok morgan_rules ym -> exists st, standardize_charges_model yf ym order g = Ok st.
+Proof. exact charges_never_fail. Qed.
+Print Assumptions C14_charges_never_fail.
+
+(* one accepted match of a fixed rule: if the charges are what the pattern says (C14_table_charged_balanced: the discharged atom +1,
+   atom 2 neutral), atoms / elements / isotopes / adjacency / NET CHARGE are conserved; a match that is not accepted changes nothing.
+   _partial: the whole-loop net-charge statement needs `the charges are as the pattern says at the moment of every later match`,
+   which is a property of the matcher on the intermediate molecules (two matches sharing at most two atoms), not proved *)
+Theorem C14_charges_fixed_step_conserves_partial : forall fx mp st st' a1 a2 d ad au,
+  fixed_step fx mp st = Ok st' ->
+  accept mp st = Ok (mkCS (cs_mol st) (seen_update (cs_seen st) (match_set mp)) (cs_changed st) (cs_pairs st), Some (a1, a2)) ->
+  (if fx then zget mp 3 else Some a1) = Some d ->
+  NoDup (ids (cs_mol st)) -> d <> a2 -> atom_of (cs_mol st) d = Some ad -> atom_of (cs_mol st) a2 = Some au -> a_chg ad = 1 -> a_chg au = 0 ->
+  conserved (cs_mol st) (cs_mol st').
+Proof. exact fixed_step_conserves. Qed.
+Print Assumptions C14_charges_fixed_step_conserves_partial.
+
+Theorem C14_charges_skipped_match : forall fx mp st st1,
+  accept mp st = Ok (st1, None) -> fixed_step fx mp st = Ok st1 /\ cs_mol st1 = cs_mol st /\ cs_changed st1 = cs_changed st.
+Proof. exact fixed_step_skip. Qed.
+Print Assumptions C14_charges_skipped_match.
+
+(* a morgan rule: the recorded pair loses the +1 of the discharged atom and the assignment gives it to atom 1 or atom 2, whichever the
+   canonical order prefers: conserved for EVERY order *)
+Theorem C14_charges_morgan_pair_conserves_partial : forall order g a1 a2 d fx ad,
+  NoDup (ids g) -> atom_of g d = Some ad -> a_chg ad = 1 ->
+  (forall x ax, (x = a1 \/ x = a2) -> atom_of (set_charge g d 0) x = Some ax -> a_chg ax = 0) ->
+  (exists x1, atom_of g a1 = Some x1) -> (exists x2, atom_of g a2 = Some x2) ->
+  forall st', morgan_assign order (a1, a2, fx) (mkCS (set_charge g d 0) [] [] []) = Ok st' -> conserved g (cs_mol st').
+Proof. exact morgan_record_assign_conserves. Qed.
+Print Assumptions C14_charges_morgan_pair_conserves_partial.
+
+(* non-vacuity: recorded runs of the real code (a fixed rule with fix = True; the pyrazolium rule under both canonical orders) *)
+Theorem C14_charges_example_fixed :
+  exists st, standardize_charges_model ex_fixed_yf ex_fixed_ym (fun _ => 0) ex_fixed_g = Ok st /\
+             cs_changed st = [3; 2] /\ charge_of (cs_mol st) 3 = Some 0 /\ charge_of (cs_mol st) 2 = Some 1 /\
+             total_charge (cs_mol st) = total_charge ex_fixed_g /\ cs_pairs st = [].
+Proof. exact charges_example_fixed. Qed.
+Print Assumptions C14_charges_example_fixed.
+
+Theorem C14_charges_example_morgan :
+  (exists st, standardize_charges_model [] ex_morgan_ym (ex_order false) ex_morgan_g = Ok st /\ cs_pairs st = [(1, 2, false)] /\
+              cs_changed st = [] /\ charge_of (cs_mol st) 1 = Some 1 /\ total_charge (cs_mol st) = total_charge ex_morgan_g) /\
+  (exists st, standardize_charges_model [] ex_morgan_ym (ex_order true) ex_morgan_g = Ok st /\
+              cs_changed st = [2; 1] /\ charge_of (cs_mol st) 1 = Some 0 /\ charge_of (cs_mol st) 2 = Some 1 /\
+              total_charge (cs_mol st) = total_charge ex_morgan_g).
+Proof. exact charges_example_morgan. Qed.
+Print Assumptions C14_charges_example_morgan.
+
+(* WHOLE CALL, net charge (round 4): for EVERY molecule with distinct atom numbers, EVERY matcher output and EVERY canonical order, if at the
+   moment of every accepted match the charges are what the pattern says (charges_pre: executable; the discharged atom +1, the receiving
+   atom neutral and another atom; the nitrogen chosen by the canonical order neutral) the heterocycle part of standardize_charges conserves
+   atoms / elements / isotopes / adjacency AND the net charge.  The hypothesis is about the matcher on the intermediate molecules; the
+   correspondence evaluates it on every recorded run of the real code (charges_pre_ok) *)
+Theorem C14_charges_conserved : forall yf ym order g st,
+  NoDup (ids g) -> charges_pre yf ym order g = true -> standardize_charges_model yf ym order g = Ok st -> conserved g (cs_mol st).
+Proof. exact charges_conserved. Qed.
+Print Assumptions C14_charges_conserved.
+
+Theorem C14_charges_conserved_example :
+  charges_pre ex_fixed_yf ex_fixed_ym (fun _ => 0) ex_fixed_g = true /\ NoDup (ids ex_fixed_g) /\
+  charges_pre [] ex_morgan_ym (ex_order true) ex_morgan_g = true /\ NoDup (ids ex_morgan_g).
+Proof. exact charges_conserved_example. Qed.
+Print Assumptions C14_charges_conserved_example.
+
+(* ---- the ferrocene block of standardize_charges (hand model Model.StandardizeFerrocene; SSSR and canonical order are inputs) ---- *)
+(* for EVERY ring list, canonical order and molecule the block changes nothing but charges *)
+Theorem C14_ferrocene_frame : forall sssr order g changed, exists touched, frame g (fs_mol (ferrocene_block sssr order g changed)) touched.
+Proof. exact ferrocene_frame. Qed.
+Print Assumptions C14_ferrocene_frame.
+
+(* ... and conserves the net charge when every carbon that gets a ring's charge back is neutral at that moment (ferrocene_pre, executable,
+   evaluated on every recorded run: charges_full_ok) *)
+Theorem C14_ferrocene_conserved : forall sssr order g changed,
+  NoDup (ids g) -> ferrocene_pre sssr order g changed = true -> conserved g (fs_mol (ferrocene_block sssr order g changed)).
+Proof. exact ferrocene_conserved. Qed.
+Print Assumptions C14_ferrocene_conserved.
+
+(* the WHOLE of standardize_charges after thiele(): heterocycle loops (bodies translated from the source), then the ferrocene block *)
+Theorem C14_charges_full_conserved : forall yf ym order order_f sssr g st,
+  NoDup (ids g) -> charges_pre yf ym order g = true -> standardize_charges_model yf ym order g = Ok st ->
+  ferrocene_pre sssr order_f (cs_mol st) (cs_changed st) = true ->
+  conserved g (fs_mol (ferrocene_block sssr order_f (cs_mol st) (cs_changed st))).
+Proof. exact charges_full_conserved. Qed.
+Print Assumptions C14_charges_full_conserved.
+
+Theorem C14_ferrocene_example :
+  let order := fun n => match zget [(1, 6); (2, 5); (3, 3); (6, 3); (4, 1); (5, 1)] n with Some r => r | None => 0 end in
+  let fs := ferrocene_block [[2; 3; 4; 5; 6]] order ex_cp_g [] in
+  fs_changed fs = [2; 4] /\ chg_of (fs_mol fs) 2 = 0 /\ chg_of (fs_mol fs) 4 = -1 /\ total_charge (fs_mol fs) = -1 /\
+  ferrocene_pre [[2; 3; 4; 5; 6]] order ex_cp_g [] = true.
+Proof. exact ferrocene_example. Qed.
+Print Assumptions C14_ferrocene_example.
